@@ -147,6 +147,76 @@ def run_seq(seq):
     return out
 
 
+GROW_A2 = ["new_only_str", "new_only_modelsym", "new_only_plainsym", "new_plus_one", "list4", "array4", "pairs4_rev", "dict_all4", "dict_old_only"]
+
+
+def run_grow(args):
+    """assignment -> [evaluate] -> the parameter list is extended by one name -> a second assignment -> evaluate.
+    Values given before the extension must survive a partial update that mentions only the new name."""
+    a1, evaluate_between, a2 = args
+    out = {"seq": (a1, "eval" if evaluate_between else "-", "grow", a2), "viol": [], "compared": 0}
+    m = make_model()
+    vals = {p: float(PRIMES[i]) for i, p in enumerate(PARAMS)}
+    arg, update = build_arg(m, a1, vals)
+    m.parameters = arg
+    ref = dict(update)
+    if evaluate_between:
+        m.ode(list(X), 0.3)
+        m.grad(list(X), 0.3)
+    m.param_list = ["nu"]
+    nu, b2 = 101.0, 103.0
+    names4 = PARAMS + ["nu"]
+    new = dict(ref, nu=nu)
+    if a2 == "new_only_str":
+        arg2, upd = {"nu": nu}, {"nu": nu}
+    elif a2 == "new_only_modelsym":
+        arg2, upd = {m._paramDict["nu"]: nu}, {"nu": nu}
+    elif a2 == "new_only_plainsym":
+        arg2, upd = {sympy.Symbol("nu"): nu}, {"nu": nu}
+    elif a2 == "new_plus_one":
+        arg2, upd = {"nu": nu, "beta": b2}, {"nu": nu, "beta": b2}
+    elif a2 == "list4":
+        v4 = {p: float(PRIMES[5 + i]) for i, p in enumerate(names4)}
+        arg2, upd = [v4[p] for p in names4], v4
+    elif a2 == "array4":
+        v4 = {p: float(PRIMES[9 + i]) for i, p in enumerate(names4)}
+        arg2, upd = np.array([v4[p] for p in names4]), v4
+    elif a2 == "pairs4_rev":
+        v4 = {p: float(PRIMES[13 + i]) for i, p in enumerate(names4)}
+        arg2, upd = [(p, v4[p]) for p in reversed(names4)], v4
+    elif a2 == "dict_all4":
+        v4 = {p: float(PRIMES[17 + i]) for i, p in enumerate(names4)}
+        arg2, upd = dict(v4), v4
+    else:                                    # dict_old_only: the new name stays without a value
+        arg2, upd = {"gamma": b2}, {"gamma": b2}
+    form = "grow:" + a2
+    try:
+        m.parameters = arg2
+    except Exception as e:
+        out["viol"].append({"what": "accepted-form-rejected", "step": 2, "form": form, "error": "%s: %s" % (type(e).__name__, str(e)[:80])})
+        return out
+    ref.update(upd)
+    if "nu" not in ref:
+        return out          # a declared parameter without a value: evaluation is not defined
+    try:
+        got = {"ode": np.asarray(m.ode(list(X), 0.3), float).ravel(), "grad": np.asarray(m.grad(list(X), 0.3), float).reshape(3, 4),
+               "vMat": np.asarray(m.vMat(list(X), 0.3), float).reshape(3, 1)}
+    except Exception as e:
+        out["viol"].append({"what": "evaluation-raised", "step": 2, "form": form, "error": "%s: %s" % (type(e).__name__, e)})
+        return out
+    for pn, exp in expected(ref).items():
+        for which, (idx, want) in exp.items():
+            out["compared"] += 1
+            g_ = got[which][idx]
+            if abs(g_ - want) > 1e-9 * (1 + abs(want)):
+                out["viol"].append({"what": "value-bound-to-wrong-name", "step": 2, "form": form, "param": pn, "evaluator": which,
+                                    "got": float(g_), "want": want, "reference": ref})
+                return out
+    if not np.all(got["grad"][:, 3] == 0):
+        out["viol"].append({"what": "value-bound-to-wrong-name", "step": 2, "form": form, "param": "nu", "evaluator": "grad", "got": got["grad"][:, 3].tolist(), "want": 0.0})
+    return out
+
+
 def main(argv=None):
     run = report.Run("C09", "model_checking")
     env.load_pygom()
@@ -164,6 +234,11 @@ def main(argv=None):
                 "dict:str:12", "dict:plainsym:012", "pairs_unknown", "dict_unknown", "long"]
         seqs += [tuple(s) for s in itertools.product(reps, repeat=3)]
     res = pool.pmap(run_seq, seqs)
+    gjobs = [(a1, ev, a2) for a1 in ("list", "column", "pairs:201", "pairs_tuple:120", "dict:str:012", "dict:modelsym:012", "dict:plainsym:012")
+             for ev in (False, True) for a2 in GROW_A2]
+    gres = pool.pmap(run_grow, gjobs)
+    run.count("grown-parameter-list histories", len(gjobs))
+    res = res + gres
     compared = sum(r["compared"] for r in res)
     for r in res:
         for v in r["viol"]:
@@ -173,14 +248,16 @@ def main(argv=None):
     run.sample({"sequence": list(seqs[len(seqs) // 3])})
     run.sample({"sequence": list(seqs[-1])})
     run.cov.update({
-        "evaluations": len(seqs), "distinct_nontrivial": sum(1 for r in res if r["compared"]),
+        "evaluations": len(seqs) + len(gjobs), "distinct_nontrivial": sum(1 for r in res if r["compared"]),
         "rule": "all sequences of <= %d assignments over %d input forms (list, tuple, array, column array, list/tuple of pairs in all 6 "
                 "orders, dict keyed by str / the model's symbol / a plain sympy.Symbol for all 7 non-empty subsets, and 6 rejected "
                 "forms)%s on a 3-parameter model whose right-hand side makes each parameter separately observable; after every "
                 "assignment ode and grad are evaluated on the same object and compared with a dict updated by the obvious rule; "
-                "values are distinct per position. distinct_nontrivial = sequences in which at least one component was compared" % (
+                "values are distinct per position. grown-list leg: a full assignment (7 forms) -> [evaluate] -> param_list extended by one name -> "
+                "a second assignment (new name only by str / model symbol / plain Symbol, new name plus one old, list, array, pairs reversed, "
+                "dict of all four, an old name only) -> evaluate. distinct_nontrivial = sequences in which at least one component was compared" % (
                     depth, len(names), " plus all length-3 sequences over 12 representative forms" if quick else " (length 3 over two interleaved halves of the alphabet)"),
-        "states": len(seqs), "transitions": sum(len(s) for s in seqs), "traces_validated_against_impl": len(seqs),
+        "states": len(seqs) + len(gjobs), "transitions": sum(len(s) for s in seqs) + 4 * len(gjobs), "traces_validated_against_impl": len(seqs) + len(gjobs),
         "component_comparisons": compared,
     })
     run.assumptions += ["a partial update on a model that never had values leaves the unmentioned parameters unspecified (not judged)",
